@@ -195,7 +195,8 @@ def _check(pid, P, tier, seed, bdir, ev):
         # same value with the operands in another order is then not reported merely because the first attempt has no AC reasoning.
         vf = [x for x in failures if x.verdict and x.fn_key]
         if vf and not compile_errors and r.json is not None:
-            so = second_opinion(uname, unit_path, meta, sorted(set(x.fn_key for x in vf)), P)
+            vnames = {f['key']: VR.resolve_name(r, f['verus_name']) for f in meta['functions'] if f['key'] in set(x.fn_key for x in vf)}
+            so = second_opinion(uname, unit_path, meta, sorted(set(x.fn_key for x in vf)), P, vnames)
             cov.setdefault('second_opinion', {})[uname] = so
             cleared = set(k for k, v in so.items() if v.get('verified'))
             if cleared:
@@ -644,7 +645,7 @@ def scan_suite_overrides():
     return problems, seen
 
 
-def second_opinion(uname, unit_path, meta, keys, P):
+def second_opinion(uname, unit_path, meta, keys, P, vnames=None):
     """Levels 1..3 add more of the T3 laws as quantified facts (1: commutativity + cancellation, 2: + associativity, 3: + distributivity);
     the richer the set the likelier the solver drowns, so the cheap levels are tried first and the first success counts."""
     out = {}
@@ -669,16 +670,28 @@ def second_opinion(uname, unit_path, meta, keys, P):
             if not f or 'fn_pattern' not in f:
                 out[k] = dict(verified=False, note='no pattern')
                 continue
-            sel = (['--verify-only-module', f['modpath']] if f.get('modpath') else ['--verify-root']) + ['--verify-function', f['fn_pattern']]
-            cmd = [VR.VERUS, 'unit.rs', '--output-json', '--rlimit', '20'] + sel
-            try:
-                pr = subprocess.run(cmd, cwd=d, capture_output=True, text=True, timeout=180)
-                js = json.loads(pr.stdout[pr.stdout.index('{'):]) if '{' in pr.stdout else {}
-                vr = js.get('verification-results', {})
-                ok = pr.returncode == 0 and vr.get('errors', 1) == 0 and vr.get('verified', 0) >= 1
-                out[k] = dict(verified=bool(ok), level=level, cmd=' '.join(cmd), verified_items=vr.get('verified'), errors=vr.get('errors'))
-            except Exception as e:
-                out[k] = dict(verified=False, level=level, note=str(e)[:200])
+            # Verus names a trait-impl method after the module of the TYPE: use the name it reported in the first run (vnames) when known
+            vn = (vnames or {}).get(k)
+            tries = []
+            modsel = ['--verify-only-module', f['modpath']] if f.get('modpath') else ['--verify-root']
+            if vn:
+                tries.append(modsel + ['--verify-function', vn])        # the full Verus name is a unique substring; the module is the SOURCE module
+            tries.append((['--verify-only-module', f['modpath']] if f.get('modpath') else ['--verify-root']) + ['--verify-function', f['fn_pattern']])
+            res_k = dict(verified=False, level=level)
+            for sel in tries:
+                cmd = [VR.VERUS, 'unit.rs', '--output-json', '--rlimit', '20'] + sel
+                try:
+                    pr = subprocess.run(cmd, cwd=d, capture_output=True, text=True, timeout=180)
+                    js = json.loads(pr.stdout[pr.stdout.index('{'):]) if '{' in pr.stdout else {}
+                    vr = js.get('verification-results', {})
+                    if vr.get('verified', 0) + vr.get('errors', 0) == 0:
+                        continue        # the selection matched nothing (or was ambiguous): try the next spelling
+                    ok = pr.returncode == 0 and vr.get('errors', 1) == 0 and vr.get('verified', 0) == 1
+                    res_k = dict(verified=bool(ok), level=level, cmd=' '.join(cmd), verified_items=vr.get('verified'), errors=vr.get('errors'))
+                    break
+                except Exception as e:
+                    res_k = dict(verified=False, level=level, note=str(e)[:200])
+            out[k] = res_k
     return out
 
 
